@@ -66,7 +66,8 @@ Inductive prog : Type :=
 | PMerge (p q : prog)
 | PHalve (p : prog)
 | PScale (g : N -> N) (p : prog)
-| PRound (p : prog).
+| PRound (p : prog)
+| PImage (bs : list N).             (* deserialize(bs) for ARBITRARY bytes (C14: "any value returned as Ok can be used") *)
 
 Fixpoint eval (p : prog) : outcome cm :=
   match p with
@@ -76,6 +77,7 @@ Fixpoint eval (p : prog) : outcome cm :=
   | PHalve p => obind (eval p) (fun s => Ok (cm_halve s))
   | PScale g p => obind (eval p) (fun s => Ok (cm_scale g s))
   | PRound p => obind (eval p) (fun s => cm_deserialize mx sh (cm_serialize s))
+  | PImage bs => cm_deserialize mx sh bs
   end.
 
 (* the weight a program feeds in (an upper bound of its sketch's total weight) *)
@@ -85,6 +87,7 @@ Fixpoint pweight (p : prog) : N :=
   | PUpd p _ w => pweight p + w
   | PMerge p q => pweight p + pweight q
   | PHalve p | PScale _ p | PRound p => pweight p
+  | PImage bs => match cm_deserialize mx sh bs with Ok s => cm_total s | _ => 0 end
   end.
 
 (* documented preconditions on the arguments: decay scales down monotonically *)
@@ -94,6 +97,16 @@ Fixpoint pok (p : prog) : Prop :=
   | PUpd p _ _ | PHalve p | PRound p => pok p
   | PMerge p q => pok p /\ pok q
   | PScale g p => (forall a b, a <= b -> g a <= g b) /\ g 0 = 0 /\ (forall c, g c <= c) /\ pok p
+  (* compatible merge partners: an accepted image has this program's configuration *)
+  | PImage bs => forall s, cm_deserialize mx sh bs = Ok s -> cm_nh s = nh /\ cm_nb s = nb
+  end.
+
+Fixpoint has_image (p : prog) : Prop :=
+  match p with
+  | PNew => False
+  | PUpd p _ _ | PHalve p | PScale _ p | PRound p => has_image p
+  | PMerge p q => has_image p \/ has_image q
+  | PImage _ => True
   end.
 
 Local Notation LB := (LB nh nb mx sh bucket).
@@ -116,6 +129,7 @@ Proof.
   intros HL Ht. pose proof (lb_cells s f HL) as Hc. destruct HL as ((En & Eb & Em & Es & Hlen) & _ & _).
   constructor; rewrite ?En, ?Eb; auto; try lia.
   - apply Forall_nth_le. intros i _. specialize (Hc i). lia.
+  - apply Forall_nth_le. intros i _. exact (Hc i).
   - intros Ht0. apply all_nth_zero_repeat; [exact Hlen|]. intros i _. specialize (Hc i). lia.
 Qed.
 
@@ -147,45 +161,81 @@ Proof.
     unfold cell, nthN in Hhi1, Hhi2. lia.
 Qed.
 
+(* whatever the (repaired) reader accepts satisfies the invariant the API relies on *)
+Lemma deserialize_lb bs s :
+  cm_deserialize mx sh bs = Ok s -> cm_nh s = nh -> cm_nb s = nb -> LB s (fun _ => 0) /\ cm_total s <= mx.
+Proof.
+  intros E En Eb. pose proof (deserialize_ok_shape mx sh bs s E) as (_ & _ & _ & Hlen & _ & Ht & Em & Es & _).
+  pose proof (deserialize_ok_bounded mx sh bs s E) as Hb. rewrite En, Eb in Hlen.
+  split; [|exact Ht]. repeat split; auto.
+  - intros; lia.
+  - intros r b Hr Hb'. unfold cell, nthN. rewrite Forall_forall in Hb.
+    destruct (Nat.lt_ge_cases (N.to_nat (r * nb + b)) (length (cm_counts s))) as [Hi|Hi].
+    + apply Hb. apply nth_In. exact Hi.
+    + rewrite nth_overflow by lia. lia.
+Qed.
+
 (* every valid program runs to completion: no constructor assertion, no counter or total
-   overflow, no merge assertion, no deserialization error; the result is well-formed *)
-Theorem api_no_stuck : forall p, pok p -> pweight p <= mx ->
-  exists s f, eval p = Ok s /\ LB s f /\ cm_total s <= pweight p /\ wfc mx sh s.
+   overflow, no merge assertion; the only way not to finish with Ok is that an image leaf is
+   rejected by the reader (Err, never Stuck); the result is well-formed *)
+Theorem api_no_stuck_general : forall p, pok p -> pweight p <= mx ->
+  (exists s f, eval p = Ok s /\ LB s f /\ cm_total s <= pweight p /\ wfc mx sh s) \/
+  (eval p = Err /\ has_image p).
 Proof.
   assert (Hwfc : forall s f w, LB s f -> cm_total s <= w -> w <= mx -> wfc mx sh s).
   { intros s f w HL H1 H2. apply (lb_wfc s f HL). lia. }
-  induction p as [|p IH x w|p IHp q IHq|p IH|g p IH|p IH]; cbn [eval pweight pok]; intros Hok Hfit.
-  - rewrite cm_new_fresh by lia. exists (cm_fresh nh nb mx sh), (truth []).
+  induction p as [|p IH x w|p IHp q IHq|p IH|g p IH|p IH|bs]; cbn [eval pweight pok has_image]; intros Hok Hfit.
+  - left. rewrite cm_new_fresh by lia. exists (cm_fresh nh nb mx sh), (truth []).
     pose proof (rep_lb nh nb mx sh Hnb0 bucket bucket_range _ _ (rep_new nh nb mx sh bucket ltac:(lia))) as L0.
     split; [reflexivity|]. split; [exact L0|].
     change (cm_total (cm_fresh nh nb mx sh)) with 0.
     split; [apply N.le_refl|]. apply (Hwfc _ _ 0 L0); [apply N.le_refl | apply N.le_0_l].
-  - destruct (IH Hok ltac:(lia)) as (s & f & E & L & Ht & _). rewrite E. cbn [obind].
+  - destruct (IH Hok ltac:(lia)) as [(s & f & E & L & Ht & _)|[E Hi]]; [|right; rewrite E; auto]. left.
+    rewrite E. cbn [obind].
     destruct (update_lb nh nb mx sh Hnb0 bucket bucket_range s f x w L ltac:(lia)) as (s1 & E1 & L1).
     exists s1, (fun y => (if y =? x then w else 0) + f y). split; [exact E1|]. split; [exact L1|].
     pose proof (update_total _ _ _ _ E1) as T1.
     assert (cm_total s1 <= pweight p + w) by (destruct (w =? 0); lia).
     split; [assumption|]. apply (Hwfc _ _ (pweight p + w) L1); lia.
   - destruct Hok as [Hp Hq].
-    destruct (IHp Hp ltac:(lia)) as (s & f & E & L & Ht & _).
-    destruct (IHq Hq ltac:(lia)) as (o & g & Eo & Lo & Hto & _).
-    rewrite E, Eo. cbn [obind].
+    destruct (IHp Hp ltac:(lia)) as [(s & f & E & L & Ht & _)|[E Hi]]; [|right; rewrite E; auto].
+    destruct (IHq Hq ltac:(lia)) as [(o & g & Eo & Lo & Hto & _)|[Eo Hi]]; [|right; rewrite E, Eo; auto].
+    left. rewrite E, Eo. cbn [obind].
     destruct (merge_lb s o f g L Lo ltac:(lia)) as (s1 & E1 & L1 & T1).
     exists s1, (fun x => f x + g x). split; [exact E1|]. split; [exact L1|]. split; [lia|].
     apply (Hwfc _ _ (pweight p + pweight q) L1); lia.
-  - destruct (IH Hok Hfit) as (s & f & E & L & Ht & _). rewrite E. cbn [obind].
+  - destruct (IH Hok Hfit) as [(s & f & E & L & Ht & _)|[E Hi]]; [|right; rewrite E; auto]. left.
+    rewrite E. cbn [obind].
     pose proof (halve_lb nh nb mx sh Hnb0 bucket bucket_range s f L) as L1.
     assert (cm_total (cm_halve s) <= pweight p).
     { unfold cm_halve; cbn [cm_total]. pose proof (N.div_le_upper_bound (cm_total s) 2 (cm_total s)). lia. }
     eexists _, _. split; [reflexivity|]. split; [exact L1|]. split; [assumption|]. apply (Hwfc _ _ (pweight p) L1); lia.
   - destruct Hok as (Hm & H0 & Hle & Hp).
-    destruct (IH Hp Hfit) as (s & f & E & L & Ht & _). rewrite E. cbn [obind].
+    destruct (IH Hp Hfit) as [(s & f & E & L & Ht & _)|[E Hi]]; [|right; rewrite E; auto]. left.
+    rewrite E. cbn [obind].
     pose proof (scale_lb nh nb mx sh bucket g s f Hm H0 L) as L1.
     assert (cm_total (cm_scale g s) <= pweight p).
     { unfold cm_scale; cbn [cm_total]. specialize (Hle (cm_total s)). lia. }
     eexists _, _. split; [reflexivity|]. split; [exact L1|]. split; [assumption|]. apply (Hwfc _ _ (pweight p) L1); lia.
-  - destruct (IH Hok Hfit) as (s & f & E & L & Ht & W). rewrite E. cbn [obind].
+  - destruct (IH Hok Hfit) as [(s & f & E & L & Ht & W)|[E Hi]]; [|right; rewrite E; auto]. left.
+    rewrite E. cbn [obind].
     rewrite (roundtrip mx sh s W). exists s, f. split; [reflexivity|]. split; [exact L|]. split; [exact Ht|exact W].
+  - pose proof (deserialize_never_stuck mx sh bs) as Hns.
+    destruct (cm_deserialize mx sh bs) as [s| |] eqn:E; [left|right; auto|congruence].
+    destruct (Hok s eq_refl) as [En Eb]. destruct (deserialize_lb bs s E En Eb) as [L Ht].
+    exists s, (fun _ => 0). split; [reflexivity|]. split; [exact L|]. split; [apply N.le_refl|].
+    apply (lb_wfc s _ L Ht).
+Qed.
+
+Theorem api_no_stuck : forall p, pok p -> pweight p <= mx -> ~ has_image p ->
+  exists s f, eval p = Ok s /\ LB s f /\ cm_total s <= pweight p /\ wfc mx sh s.
+Proof.
+  intros p Hok Hfit Hni. destruct (api_no_stuck_general p Hok Hfit) as [H|[_ Hi]]; [exact H|contradiction].
+Qed.
+
+Theorem api_never_stuck : forall p, pok p -> pweight p <= mx -> eval p <> Stuck.
+Proof.
+  intros p Hok Hfit. destruct (api_no_stuck_general p Hok Hfit) as [(s & f & E & _)|[E _]]; rewrite E; discriminate.
 Qed.
 
 (* the queries are total functions of the state; on the result of a valid program they are
@@ -195,7 +245,7 @@ Theorem api_queries_ordered : forall p s x err, pok p -> pweight p <= mx -> eval
   cm_lower_bound s (bk_of nh bucket x) <= cm_upper_bound s (bk_of nh bucket x) err /\
   cm_upper_bound s (bk_of nh bucket x) err <= mx.
 Proof.
-  intros p s x err Hok Hfit E. destruct (api_no_stuck p Hok Hfit) as (s' & f & E' & L & Ht & W).
+  intros p s x err Hok Hfit E. destruct (api_no_stuck_general p Hok Hfit) as [(s' & f & E' & L & Ht & W)|[E' _]]; [|congruence].
   rewrite E in E'. inversion E'; subst s'.
   pose proof (estimate_lb nh nb mx sh Hnb0 bucket bucket_range s f x L ltac:(lia) ltac:(lia)) as [_ H2].
   pose proof (upper_bound_sound s (bk_of nh bucket x) err) as (U1 & U2 & _).
